@@ -3,14 +3,14 @@
 import json, os, re, sys
 HERE = os.path.dirname(os.path.abspath(__file__)); V = os.path.dirname(HERE); sys.path.insert(0, V)
 from lemmas import registry as reg
-rows = ['| id | lemmas run by the check | level | tier of the evidence | wall time | jobs | solver queries |', '|---|---|---|---|---|---|---|']
+rows = ['| id | lemmas run by the check | level | tier of the evidence | wall time | evaluations | solver queries |', '|---|---|---|---|---|---|---|']
 for p in sorted(reg.PROPS):
     P = reg.PROPS[p]; ev = {}
     try: ev = json.load(open(os.path.join(V, 'evidence', p + '.json')))
     except Exception: pass
     cov = ev.get('coverage', {})
     rows.append('| %s | %s%s | %s | %s | %s s | %s | %s |' % (p, ' '.join(P['lemmas']), ' (footprint)' if P.get('footprint') else '', P['level'].replace('_', ' '), ev.get('tier', '-'),
-                ev.get('wall_s', cov.get('wall_s', '-')), cov.get('jobs', '-'), cov.get('solver_queries', cov.get('queries', '-'))))
+                ev.get('wall_s', cov.get('wall_s', '-')), cov.get('evaluations', '-'), cov.get('solver_queries', cov.get('queries', '-'))))
 s = open(os.path.join(V, 'DESIGN.md')).read()
 a = s.index('<!-- PROP-TABLE-BEGIN -->') + len('<!-- PROP-TABLE-BEGIN -->'); b = s.index('<!-- PROP-TABLE-END -->')
 s = s[:a] + '\n' + '\n'.join(rows) + '\n' + s[b:]
